@@ -56,6 +56,7 @@ func writeEvidence(o *opts, ck Check, sites *SiteTable, m *ShardResult, violatio
 		"cases_planned":            total,
 		"discarded_baseline_panic": m.Discarded,
 		"simulated_steps":          m.Steps,
+		"process_time_zone":        curTZ + " (a function of the seed; the same for every process of the run)",
 		"simulated_time":           "not applicable: the library has no timers; progress is measured in executed statements of repository code (simulated_steps)",
 		"runs_per_hour":            float64(m.Evals) / hours,
 		"seeds_per_hour":           1 / hours,
